@@ -263,6 +263,25 @@ pub fn worker(idx: usize) {
             let mut viols = vec![];
             let mut nh = 0u64;
             let mut commits = 0u64;
+            if let Some(steps) = j["single"].as_u64() {
+                // ONE commit on the fresh 4-page file that ends from 12 pages below to 4 pages above the
+                // end of the file grown by `steps` growth steps, in half-page steps
+                let total = (4 * ps + steps * (8u64 << 20)) / ps;
+                for k in lo..hi {
+                    let v = (total - 12 - 4) * ps + k * ps / 2;
+                    let h = vec![tx(vec![OpSpec::bucket("create", &[], "g"), OpSpec::put(&["g"], "only", &format!("A*{}", v))]), tx(vec![OpSpec::put(&["g"], "after", "v*8")]), Action::Reopen, tx(vec![OpSpec::put(&["g"], "third", "v*8")])];
+                    let (v, c, _) = run_history(&path, &cfg, &h, &or);
+                    nh += 1;
+                    commits += c;
+                    for (cl, d) in v {
+                        if viols.len() < 20 {
+                            viols.push(json!([cl, d, History { cfg: cfg.clone(), actions: h.clone() }.to_json()]));
+                        }
+                    }
+                }
+                let _ = std::fs::remove_file(&path);
+                return json!({"histories": nh, "commits": commits, "v": viols}).to_string();
+            }
             for k in lo..hi {
                 // k counts half pages from 24 pages below the boundary
                 let v2 = (total - total / 2 - 24) * ps + k * ps / 2;
@@ -357,6 +376,19 @@ pub fn run(check: &mut Check) {
     // growth boundary: page sizes that do not divide the 8 MiB growth step (the grown file ends in a
     // partial page) and one that does
     let mut gsweep_runs = 0u64;
+    // ... and single commits that grow the fresh file by one and by two steps
+    for ps in [1032u64, 3000, 4600, 5000, 4096] {
+        for steps in [1u64, 2] {
+            if tier == Tier::Quick && steps == 2 && ps == 4096 {
+                continue;
+            }
+            for chunk in 0..2u64 {
+                jobs.push(json!({"gsweep": ps, "single": steps, "strict": false, "lo": chunk * 16, "hi": (chunk + 1) * 16}).to_string());
+                meta.push((format!("growth-boundary single-commit sweep page size {} steps {} chunk {}", ps, steps, chunk), None));
+                gsweep_runs += 16;
+            }
+        }
+    }
     for ps in [1032u64, 3000, 5000, 4096] {
         for strict in [false, true] {
             if strict && tier == Tier::Quick && ps != 3000 {
